@@ -12,6 +12,10 @@ PLAN = {
  'C10b-issorted-last-pair': ['c10'], 'C06b-negative-midnight': ['c06'], 'C09b-stale-cache-after-out-of-range': ['c09', 'c08'],
  'C15b-zoned-exact-length': ['c15'], 'C02b-prior-rule-same-year': ['c02', 'c20'], 'C12b-basic-at-minute-dropped': ['c12', 'c02'],
  'C05b-same-zone-compare-local': ['c05'], 'C20b-basic-generator-minute-dropped': ['c20', 'c03', 'c12'],
+ 'C17b-compareto-int8-hour-diff': ['c17'], 'C13b-skip-reset-to-last-sync-time': ['c13'], 'C18b-dayofweek-century-jan-feb': ['c18', 'c06'],
+ 'C16b-unknown-id-restores-last-hit': ['c16', 'c10'], 'C11b-registry-sorted-by-symbol': ['c03', 'c11'], 'C03b-basic-double-transition-before-window': ['c03'],
+ 'C01b-window-13-months': ['c01'], 'C08b-stale-active-flag': ['c08', 'c01'], 'C07b-startyear-minus-one': ['c07', 'c09'],
+ 'C04b-basic-finder-drops-year0-anchor': ['c04'],
  'C11-registry-sorted-by-symbol': ['c03', 'c11'], 'C09-transition-pool-6': ['c09', 'c01'], 'C04-cpp-window-13-months': ['c04', 'c01'],
 }
 sel = sys.argv[1:]
